@@ -259,7 +259,7 @@ class Macro(Composite, StaticNode, ScrapesIO, ABC):
 
         for node, output_channel_label in zip(
             returned_has_channel_objects,
-            () if self._output_labels is None else self._output_labels,
+            () if self._get_output_labels() is None else self._get_output_labels(),
             strict=False,
         ):
             if node.channel.value_receiver is not None:
